@@ -592,6 +592,8 @@ Section Ord.
     match o with
     | OSample _ _ => False
     | OChange k x r en => k <> kopt st \/ (inc_saved st /\ isnan (obj_of st r (vmap2 add (xbase st) x)) = false)
+                          \/ (isnan (obj_of st r (vmap2 add (xbase st) x)) = false /\
+                              le (obj_of st r (vmap2 add (xbase st) x)) (objv st (kopt st)) = true)   (* improving overwrite *)
     | _ => True
     end.
   (* the value an update offers *)
@@ -626,13 +628,18 @@ Section Ord.
       assert (Hother: forall j, 0 <= j -> j <> k -> objv m j = objv st j) by (intros; apply slot_objv; auto).
       cbn [andb] in Hko. fold (objv m (kopt st)) in Hko. cbn [admissible] in Ha. fold w in Ha.
       destruct (Z.eq_dec k (kopt st)) as [Hkeq|Hkne].
-      + destruct Ha as [Ha|[(s & Es & Hs) Hwn]]; [congruence|].
-        subst k. assert (Hko': kopt m = kopt st) by (rewrite Hko; destruct (lt _ _); reflexivity).
-        rewrite Hko', Hvk. split; [exact Hwn|]. split.
-        * intros [Hc|(s0 & Es0 & Hc)]; right; exists s; rewrite Hos; split; auto.
-          -- eapply noworse_trans; eauto.
-          -- rewrite Es in Es0. injection Es0 as <-. exact Hc.
-        * intros w0 Hw0. cbn [offered] in Hw0. injection Hw0 as <-. left. apply noworse_refl.
+      + destruct Ha as [Ha|[[(s & Es & Hs) Hwn]|[Hwn Hle]]]; [congruence| |].
+        * subst k. assert (Hko': kopt m = kopt st) by (rewrite Hko; destruct (lt _ _); reflexivity).
+          rewrite Hko', Hvk. split; [exact Hwn|]. split.
+          -- intros [Hc|(s0 & Es0 & Hc)]; right; exists s; rewrite Hos; split; auto.
+             ++ eapply noworse_trans; eauto.
+             ++ rewrite Es in Es0. injection Es0 as <-. exact Hc.
+          -- intros w0 Hw0. cbn [offered] in Hw0. injection Hw0 as <-. left. apply noworse_refl.
+        * subst k. assert (Hko': kopt m = kopt st) by (rewrite Hko; destruct (lt _ _); reflexivity).
+          rewrite Hko', Hvk. split; [exact Hwn|]. split.
+          -- intros [Hc|(s0 & Es0 & Hc)]; [left|right; exists s0; rewrite Hos; auto].
+             eapply noworse_trans; [|exact Hc]. intros _. split; auto.
+          -- intros w0 Hw0. cbn [offered] in Hw0. injection Hw0 as <-. left. apply noworse_refl.
       + rewrite (Hother (kopt st)) in Hko by (destruct W; lia).
         destruct (lt w (objv st (kopt st))) eqn:Elt; rewrite Hko.
         * destruct (lt_true_nonnan _ _ Elt) as [Hwn _]. rewrite Hvk. split; [exact Hwn|]. split.
